@@ -44,23 +44,43 @@ struct Stats
     bool boundary = false;   // crossed at least one buffer boundary
 };
 
+// Record mode (prop C10script): nothing is sent to an engine; the commands are written to a script for an external engine
+// process (the real executable under valgrind).  Lines starting with '@' tell the driver what to wait for.
+inline std::vector<std::string>*& recording()
+{
+    static std::vector<std::string>* r = nullptr;
+    return r;
+}
+
 struct Runner
 {
-    rigns::Rig& R;
+    rigns::Rig* Rp;
     Stats& st;
     Tape& t;
     ref::Pos cur;  // oracle copy of the engine's current position
     int plies = 0;
     std::string tmpdir;
-    explicit Runner(Tape& tape, Stats& s) : R(rigns::rig()), st(s), t(tape), cur(ref::startpos()) {}
+    explicit Runner(Tape& tape, Stats& s) : Rp(recording() ? nullptr : &rigns::rig()), st(s), t(tape), cur(ref::startpos()) {}
 
     void send(const std::string& c)
     {
         if (st.transcript.size() < 3000) st.transcript += (c.size() > 300 ? c.substr(0, 300) + "...(" + std::to_string(c.size()) + " chars)" : c) + " ; ";
-        R.send(c);
+        if (recording())
+        {
+            recording()->push_back(c);
+            return;
+        }
+        Rp->send(c);
     }
     bool sync()
     {
+        if (recording())
+        {
+            recording()->push_back("isready");
+            recording()->push_back("@wait readyok");
+            return true;
+        }
+        rigns::Rig& R = *Rp;
         size_t m = R.out.size();
         R.send("isready");
         return R.out.wait_line(m, [](const std::string& l) { return l == "readyok"; }, 120000) >= 0;
@@ -68,6 +88,14 @@ struct Runner
     // go + wait for the single bestmove
     bool go(const std::string& cmd, bool sendStop)
     {
+        if (recording())
+        {
+            send(cmd);
+            if (sendStop) send("stop");
+            recording()->push_back("@wait bestmove");
+            return true;
+        }
+        rigns::Rig& R = *Rp;
         ctl().visits = 0;
         size_t m = R.out.size();
         send(cmd);
@@ -147,6 +175,17 @@ inline std::string go_command(Tape& t, Runner& r, bool& sendStop)
         break;
     default: break;  // bare "go": default depth
     }
+    if (recording())
+    {
+        // the external process has no visit cap: only limits that end quickly by themselves
+        int k2 = kind;
+        if (kind == 4) sendStop = true;
+        if (kind == 0 || kind == 5) c = "go depth " + std::to_string(1 + t.choose(3));
+        else if (kind == 1) c = "go nodes " + std::to_string(1 + t.choose(3000));
+        else if (kind == 2) c = "go movetime " + std::to_string(t.choose(60));
+        else if (kind == 3) c = "go wtime " + std::to_string(1 + t.choose(600)) + " btime " + std::to_string(1 + t.choose(600)) + " winc 0 binc 0";
+        (void)k2;
+    }
     if (t.chance(1, 5))
     {
         std::vector<ref::Move> ms = ref::legal_moves(r.cur);
@@ -165,7 +204,8 @@ inline std::string go_command(Tape& t, Runner& r, bool& sendStop)
 
 inline std::string write_book(Tape& t, Runner& r)
 {
-    std::string path = r.tmpdir + "/verif-sess-book-" + std::to_string(getpid()) + ".bin";
+    static int bookCounter = 0;
+    std::string path = r.tmpdir + "/verif-sess-book-" + std::to_string(getpid()) + (recording() ? "-" + std::to_string(bookCounter++) : std::string()) + ".bin";
     std::ofstream o(path, std::ios::binary);
     int n = int(t.choose(6));
     uint64_t key = ref::polyglot_key(r.cur);
@@ -194,7 +234,7 @@ inline std::string write_book(Tape& t, Runner& r)
 inline bool run_session(Tape& t, Stats& st, Report* rep, const std::string& tmpdir)
 {
     static bool init = false;
-    if (!init)
+    if (!init && !recording())
     {
         init = true;
         br::init_engine();
@@ -323,7 +363,7 @@ inline bool run_session(Tape& t, Stats& st, Report* rep, const std::string& tmpd
             r.send("setoption name Polyglot Book value " + p);
             r.send(std::string("setoption name Polyglot Sample value ") + (t.flag() ? "random" : "best"));
             if (!r.sync()) return false;
-            unlink(p.c_str());
+            if (!recording()) unlink(p.c_str());
             st.cls["c10:book_loaded"]++;
             break;
         }
